@@ -3,10 +3,12 @@
 namespace vf {
 void runLoadDump(const Opts&, long, CaseLog&);
 void runGenerations(const Opts&, long, CaseLog&);
+void runResidue(const Opts&, long, CaseLog&);
 int modeMain(const Opts& o) {
     if (o.mode == "hist") return runCases(o, runHistCase);
     if (o.mode == "loaddump") return runCases(o, runLoadDump);
     if (o.mode == "gens") return runCases(o, runGenerations);
+    if (o.mode == "residue") return runCases(o, runResidue);
     fprintf(stderr, "unknown mode %s\n", o.mode.c_str());
     return 2;
 }
